@@ -85,9 +85,12 @@ static uint64_t state_key(const struct mstate *m) {
     return h ? h : 1;
 }
 
-/* ledger / free-discipline oracle, after every call (C15) */
+/* ledger / free-discipline oracle, after every call (C15); dependency-source oracle (C18) */
 static void ledger_oracle(const struct mstate *m, const char *opname) {
     char k[160];
+    if ((m->nullpat & 2) ? E.n_alloc : E.n_libc_malloc) { snprintf(k, sizeof k, "c18:alloc-source:%s", opname); BADV(k, "%s allocated through %s although the injected table says otherwise (injected calls %lu, libc calls %lu, nullpat %d)", opname, (m->nullpat & 2) ? "the previously injected allocator" : "libc malloc", E.n_alloc, E.n_libc_malloc, m->nullpat); }
+    if ((m->nullpat & 4) ? E.n_free : E.n_libc_free) { snprintf(k, sizeof k, "c18:free-source:%s", opname); BADV(k, "%s released memory through %s although the injected table says otherwise (injected calls %lu, libc calls %lu, nullpat %d)", opname, (m->nullpat & 4) ? "the previously injected free" : "libc free", E.n_free, E.n_libc_free, m->nullpat); }
+    if ((m->nullpat & 1) ? E.n_time : E.n_libc_time) { snprintf(k, sizeof k, "c18:time-source:%s", opname); BADV(k, "%s read the clock through the wrong source (injected calls %lu, libc calls %lu, nullpat %d)", opname, E.n_time, E.n_libc_time, m->nullpat); }
     if (ledger_live() != nlive(m)) { snprintf(k, sizeof k, "c15:ledger:%s", opname); BADV(k, "after %s: %d blocks live but %d seeds live", opname, ledger_live(), nlive(m)); }
     if (E.err_foreign_free) { snprintf(k, sizeof k, "c15:foreign-free:%s", opname); BADV(k, "%s passed an unknown or already freed pointer to free", opname); }
     if (E.err_free_null) { snprintf(k, sizeof k, "c15:free-null:%s", opname); BADV(k, "%s called free(NULL)", opname); }
@@ -199,6 +202,15 @@ static void apply(const struct op *o, struct mstate *m) {
         case 2: st = polyseed_decode("xxx xxx", 0, &lo, &d); want = ST_NUM_WORDS; break;
         case 3: st = polyseed_decode_explicit("qq qq qq qq qq qq qq qq qq qq qq qq qq qq qq qq", 0, polyseed_get_lang(5), &d); want = ST_LANG; break;
         case 4: st = polyseed_decode(phr, 5, &lo, &d); want = ST_CHECKSUM; break;      /* right phrase, wrong coin */
+        case 5: case 6: {   /* a checksum-valid phrase that two lists recognise (English/French words; characters common to both Chinese lists): always "multiple languages" */
+            static char amb[2][2048]; static int have[2];
+            int w = o->a - 5, la = w ? 8 : 0, lb = w ? 9 : 4;
+            if (!have[w]) { have[w] = 1; unsigned cand[R_NW]; int nc = 0; uint64_t ps = 0xA3B1 + (uint64_t)w;
+                for (unsigned i = 0; i < R_NW; i++) if (ref_recognise(lb, RL[la].w[i]) >= 0) cand[nc++] = i;
+                for (int attempt = 0; attempt < 20000 && nc > 16; attempt++) { unsigned c[16]; for (int i = 1; i < 16; i++) c[i] = cand[prng(&ps) % (unsigned)nc]; if (c[2] & 1) continue; c[0] = 0; c[0] = ref_eval(c); int ok = 0; for (int i = 0; i < nc; i++) if (cand[i] == c[0]) ok = 1; if (!ok) continue; ref_phrase_from_idx(c, la, amb[w], 0); break; } }
+            st = polyseed_decode(amb[w], 0, &lo, &d); want = ref_decode(amb[w], 0, -1, m->mask, 0, CAP, NULL, NULL);
+            if (want != ST_MULT_LANG) BADV("c13:model-internal", "ambiguous phrase is not ambiguous for the model (%d)", want);
+        } break;
         }
         if (st != want) { snprintf(k, sizeof k, "c13:status:%s", o->name); BADV(k, "%s returned %d, model %d", o->name, st, want); }
         if (st == POLYSEED_OK) { polyseed_free(d); }
@@ -209,8 +221,7 @@ static void apply(const struct op *o, struct mstate *m) {
     /* fault bookkeeping */
     int requested = (E.alloc_seq > 0);
     if (o->kind != O_ARM && o->kind != O_INJECT && o->kind != O_ENABLE) {
-        if (requested != alloc_expected) { snprintf(k, sizeof k, "c15:alloc-count:%s", o->name); BADV(k, "%s made %ld allocation requests, model expects %d", o->name, E.alloc_seq, alloc_expected); }
-        if (E.alloc_seq > 1) { snprintf(k, sizeof k, "c15:alloc-count:%s", o->name); BADV(k, "%s made %ld allocation requests", o->name, E.alloc_seq); }
+        (void)alloc_expected;   /* when and how often a call allocates is not specified; only statuses and the ledger are (multi-request faults: e2_fault) */
         if (m->armed && requested) {
             m->armed = 0;
             if (st != POLYSEED_ERR_MEMORY) { snprintf(k, sizeof k, "c15:fault-status:%s", o->name); BADV(k, "%s with a failing allocation returned %d instead of the memory status", o->name, st); }
@@ -369,6 +380,7 @@ static void build_profile(void) {
         add_op(O_ARM, 0, 0, 0, "arm-allocation-fault");
         add_op(O_BADCALL, 0, 0, 0, "load(bad-checksum)"); add_op(O_BADCALL, 1, 0, 0, "load(bad-header)"); add_op(O_BADCALL, 2, 0, 0, "decode(two-words)");
         add_op(O_BADCALL, 3, 0, 0, "decode_explicit(unknown-words)"); add_op(O_BADCALL, 4, 0, 0, "decode(wrong-coin)");
+        add_op(O_BADCALL, 5, 0, 0, "decode(ambiguous en/fr phrase)"); add_op(O_BADCALL, 6, 0, 0, "decode(ambiguous zh_s/zh_t phrase)");
     } else if (P_FEAT) {
         NSLOT = 1; PASSWORDS[0] = "pw"; NPW = 1;
         RECODES[0] = (struct recv){ 0, 5, 0 }; RECODES[1] = (struct recv){ 3, 5, 1 }; NREC = 2;
